@@ -49,7 +49,7 @@ def check_spacing(p, r):
             continue
         seen.add(fi.key)
         r.analysed_functions.add(fi.key)
-        ex = paths.Explorer(p, s.ci.key, tracked=set(s.lists), atomic=set(), unroll=1)
+        ex = paths.Explorer(p, s.ci.key, tracked=set(s.lists), atomic=set(), unroll=1, split_bool_returns=True)
         bad_ne = bad_e = None
         n_ne = n_e = 0
         for pa in ex.paths(fi):
@@ -64,13 +64,17 @@ def check_spacing(p, r):
             nonempty = any(c.text == 'self.items' and c.polarity for c in conds)
             if nonempty:
                 n_ne += 1
+                # the grant is control dependent on a test that reads the entry time of the *last entered* item (items[-1]) and
+                # the travel time of one item length (speed / slot delay) - whatever locals, helpers or spelling the test goes through
                 ok = False
                 for c in conds:
-                    t = c.text.replace(' ', '')
-                    if 'self.items[-1][0].conveyor_entry_time' in t and c.polarity and ('self.delay' in t or 'length/self.speed' in t):
-                        ok = True
-                    # continuous belt: time_on_belt is computed from items[-1] and compared with length/speed
-                    if ('time_on_belt' in t and 'self.items[-1][0].length/self.speed' in t and c.polarity):
+                    atoms = []
+                    for v in c.d.get('reads') or ():
+                        atoms.extend(ex.dep_closure(v))
+                    last_entry = any(a[0] == 'attr' and a[2] == 'conveyor_entry_time' and mentions(a[1], ('const', -1)) and mentions(a[1], 'items') for a in atoms)
+                    last_len = any(a[0] == 'attr' and a[2] == 'length' and mentions(a[1], ('const', -1)) and mentions(a[1], 'items') for a in atoms)
+                    pace = (('self', 'delay') in atoms) or ((('self', 'speed') in atoms) and last_len)
+                    if last_entry and pace:         # (the clock cancels out while the last item is interrupted: not required)
                         ok = True
                 if not ok:
                     bad_ne = pa
